@@ -52,6 +52,36 @@ harnesses! {
         vassert!(b.hi == 0.0 && b.lo == 0.0, "0 / TwoFloat == 0");
         vassert!(c.hi == 0.0 && c.lo == 0.0, "0.0 / TwoFloat == 0");
     }
+    /// 16 * 2^-106 bound of the long-division family on a seeded sample of 600 valid operand pairs with high words in
+    /// [2^-200, 2^200] (ground, native; |x - q*y| <= 16 * 2^-106 |q*y| judged exactly in Fix).  A finite sample, not a proof.
+    fn long_division_accuracy_sample() {
+        #[cfg(not(kani))]
+        {
+            use core::convert::TryFrom;
+            let mut st: u64 = 0x243F6A8885A308D3;
+            let mut nx = || { st ^= st << 13; st ^= st >> 7; st ^= st << 17; st };
+            let mut mk = |r1: u64, r2: u64, r3: u64| -> TwoFloat {
+                let e = 1023 - 200 + (r1 >> 40) % 401;
+                let hi = f64::from_bits((r1 & 0x800f_ffff_ffff_ffff) | (e << 52));
+                let u = f64::from_bits(hi.to_bits() & 0x7ff0_0000_0000_0000) * 1.1102230246251565e-16; // half ulp of the binade
+                let frac = match r2 % 5 { 0 => 0.0, 1 => 1.0, 2 => 0.5, _ => (r3 >> 11) as f64 / 9007199254740992.0 };
+                let lo = u * frac * 0.9999 * (if r2 & 64 != 0 { -1.0 } else { 1.0 });
+                TwoFloat::try_from((hi, lo)).unwrap_or(TwoFloat::from(hi))
+            };
+            let mut bad = 0u32; let mut n = 0u32;
+            while n < 600 {
+                let x = mk(nx(), nx(), nx()); let y = mk(nx(), nx(), nx());
+                n += 1;
+                let q1 = x / y; let q2 = x.hi() / y; let mut q3 = x; q3 /= y; let r = y.recip();
+                let one = TwoFloat::from(1.0); let xh = TwoFloat::from(x.hi());
+                if !(q1.is_valid() && super::c04::mul_bound_ok(&x, &q1, y.hi(), y.lo(), 16)) { bad += 1; }
+                if !(q2.is_valid() && super::c04::mul_bound_ok(&xh, &q2, y.hi(), y.lo(), 16)) { bad += 1; }
+                if !(q3.is_valid() && super::c04::mul_bound_ok(&x, &q3, y.hi(), y.lo(), 16)) { bad += 1; }
+                if !(r.is_valid() && super::c04::mul_bound_ok(&one, &r, y.hi(), y.lo(), 16)) { bad += 1; }
+            }
+            vassert!(bad == 0, "f64/TwoFloat, TwoFloat/TwoFloat, /=, recip within 16 * 2^-106 on every sample pair");
+        }
+    }
     /// exact points of the long division (ground, native): x / x == 1, x / +-1, x / 2^k on a structured sample
     fn long_division_exact_points() {
         use core::convert::TryFrom;
